@@ -426,7 +426,12 @@ def _run_dmet(geom, charge, spin, basis, fragment_atoms, solvers, loc, optimizer
     from tangelo import SecondQuantizedMolecule
     from tangelo.problem_decomposition import DMETProblemDecomposition
     from tangelo.problem_decomposition.dmet import Localization
-    mol = SecondQuantizedMolecule(_tuples(geom), q=charge, spin=spin, basis=basis, frozen_orbitals=None)
+    try:
+        mol = SecondQuantizedMolecule(_tuples(geom), q=charge, spin=spin, basis=basis, frozen_orbitals=None)
+    except ValueError as ex:      # Tangelo's documented refusal when the SCF of the whole molecule does not converge
+        if "Hartree-Fock calculation did not converge" in str(ex):
+            raise Skip("mean-field-did-not-converge")
+        raise
     opts = {"molecule": mol, "fragment_atoms": copy.deepcopy(fragment_atoms), "electron_localization": Localization[loc],
             "fragment_solvers": copy.deepcopy(solvers), "verbose": False}
     if optimizer == "newton-1e-9":
